@@ -237,8 +237,11 @@ def rule_c(ctx, out):
                         f"neutral literal): create_connector asserts len(args) > 0", where(f, c))
         # the empty case returns the neutral element
         for n in cfg.nodes:
-            if n.kind == "test" and isinstance(n.ast, ast.Compare) and norm(n.ast.left).startswith("len(") and isinstance(n.ast.ops[0], ast.Eq) \
-                    and isinstance(n.ast.comparators[0], ast.Constant) and n.ast.comparators[0].value == 0:
+            len_zero = isinstance(n.ast, ast.Compare) and norm(n.ast.left).startswith("len(") and isinstance(n.ast.ops[0], ast.Eq) \
+                and isinstance(n.ast.comparators[0], ast.Constant) and n.ast.comparators[0].value == 0
+            not_seq = isinstance(n.ast, ast.UnaryOp) and isinstance(n.ast.op, ast.Not) and isinstance(n.ast.operand, ast.Name)
+            eq_empty = isinstance(n.ast, ast.Compare) and isinstance(n.ast.ops[0], ast.Eq) and isinstance(n.ast.comparators[0], ast.List) and not n.ast.comparators[0].elts
+            if n.kind == "test" and (len_zero or not_seq or eq_empty):
                 body = n.owner.body
                 rv = [s for s in body if isinstance(s, ast.Return)]
                 if rv and isinstance(rv[0].value, ast.Constant) and rv[0].value.value is NEUTRAL.get(name):
@@ -360,14 +363,17 @@ def rule_d(ctx, out):
         if fname == "type":
             x = args[0]
             return bool if isinstance(x, bool) else int if isinstance(x, int) else "Connector" if isinstance(x, FakeConn) else "ExpressionReference"
+        helper = ctx.p.functions.get(f"{CF}.{fname}")
+        if helper is not None and helper.cls is None:
+            return run(helper, *args, **kwargs)        # a helper extracted from a simplifier: interpreted like the simplifier itself
         raise Unsupported(f"call {fname}")
 
-    def run(f, conn):
+    def run(f, *cargs, **ckwargs):
         def type_of(x):
             return bool if isinstance(x, bool) else int if isinstance(x, int) else "Connector" if isinstance(x, FakeConn) else "ExpressionReference"
         ev = Evaluator(f.node, globals_env={"Connector": "Connector", "bool": bool, "int": int, "type": type_of, "_connectors": {"\0module": "_connectors"}},
                        call_hook=hook, obj_types=(FakeConn,))
-        return ev.call(conn)
+        return ev.call(*cargs, **ckwargs)
 
     shapes = {
         "and": [True, False, p, q, mk("and", p, q), mk("not", p), mk("or", p, q)],
